@@ -53,7 +53,37 @@ func (_this *Reader) Init(config *configuration.Configuration) {
 }
 
 func (_this *Reader) SetReader(reader io.Reader) {
-	_this.reader = reader
+	_this.reader = &strictReader{reader: reader}
+}
+
+// strictReader adapts any io.Reader to what the read functions below (and
+// the ULEB128, compact float and compact time decoders) rely on: every call
+// yields at least one byte or an error. The io.Reader contract also allows
+// (0, nil), and data returned together with io.EOF.
+type strictReader struct {
+	reader io.Reader
+	err    error
+}
+
+func (_this *strictReader) Read(p []byte) (int, error) {
+	if _this.err != nil {
+		return 0, _this.err
+	}
+	if len(p) == 0 {
+		return 0, nil
+	}
+	for i := 0; i < 100; i++ {
+		n, err := _this.reader.Read(p)
+		if n > 0 {
+			_this.err = err
+			return n, nil
+		}
+		if err != nil {
+			_this.err = err
+			return 0, err
+		}
+	}
+	return 0, io.ErrNoProgress
 }
 
 func (_this *Reader) ReadUint8() uint8 {
